@@ -52,6 +52,9 @@ class Prop(PropBase):
             cs.append(Case("I %02x" % b, sweep="idle-bytes", cfgs=["C20 byte"], tag="byte:idle"))
             cs.append(Case("I 0d,%02x" % b, sweep="bytes-after-cr", cfgs=["C20 byte"], tag="byte:after-cr"))
             cs.append(Case("I 0a,%02x" % b, sweep="bytes-after-lf", cfgs=["C20 byte"], tag="byte:after-lf"))
+        for i in range(3000 if tier == "quick" else 60000):
+            line, cfgs = G.hist_case(rng, rng.choice([2, 2, 3, 4, 6]), "C20")
+            cs.append(Case(line, cfgs=cfgs, tag="history-independence"))
         cs += G.transition_sweep(cfg="C20")
         cs += G.key_space(tier, prop="C20")
         for i in range(3000 if tier == "quick" else 50000):
